@@ -170,8 +170,10 @@ def composeSshMpint (v : Int) : Except PErr Bytes :=
     pure (h ++ pad ++ m)
 
 /-- `compose_mpint(value, length)` (big-endian orders): fixed-length, left padded. The word count
-handed to `_compose_mpint` is `length` itself, as in the code. -/
+handed to `_compose_mpint` is `length` itself, as in the code; a value wider than `8 * length` bits
+is rejected first (repaired: wider than `32 * length` bits used to be truncated silently). -/
 def composeMpint (v : Int) (len : Nat) : Except PErr Bytes :=
+  if bitLength v > 8 * len then .error .invalidValue else
   let m := composeMpintCore v len
   if len < m.length then .error .invalidValue
   else
